@@ -1,4 +1,5 @@
 import Insim.Drv.C13
+import Insim.Drv.C14
 import Insim.Drv.C15
 import Insim.Drv.Conn
 /-
@@ -9,7 +10,7 @@ open Insim.Drv
 
 def dispatch (line : String) : String :=
   let ws := words line
-  let hs : List (List String → Option String) := [C13.handle, C15.handle, Conn.handle]
+  let hs : List (List String → Option String) := [C13.handle, C14.handle, C15.handle, Conn.handle]
   match hs.findSome? (fun h => h ws) with
   | some r => r
   | none => "bad-op"
